@@ -31,6 +31,20 @@ def gen_statements(ctx, lattice):
     return out
 
 
+def gen_deep(ctx, num, maxd=4):
+    """random deep expression trees (TLC -simulate) placed as field / condition / call argument"""
+    cfg = "Gen_deep_sim.cfg"
+    open(ctx.path("spec", cfg), "w").write("SPECIFICATION Spec\nCONSTANTS\n  MaxD = %d\nCHECK_DEADLOCK FALSE\n" % maxd)
+    cf = ctx.path("cases_deep.ndjson")
+    ctx.tlc("Gen_deep", cfg, env={"CASE_FILE": cf}, workers=1, simulate="num=%d" % num, depth=2 * maxd + 3, timeout=1200,
+            count=False)
+    n = ctx.count_lines(cf)
+    if n == 0:
+        raise vp.Broken("generator Gen_deep produced no cases")
+    ctx.note("grammar: %d random deep expression statements (<= %d constructor applications over all leaves and operators)" % (n, maxd))
+    return cf
+
+
 def gen_spellings(ctx, comments):
     subs = '{"fields", "group", "fill", "order"}' if ctx.quick else '{"fields", "into", "from", "where", "group", "fill", "order", "limit", "tz"}'
     cf, r, n = _run(ctx, "Gen_spell", "spell", {"WithComments": "TRUE" if comments else "FALSE", "AllOptionSubs": subs,
